@@ -205,7 +205,7 @@ func (e *Engine) hasInitializer(g *ssa.Global) bool { return e.initStores[g] }
 
 // skipOwnInit lists own packages whose init only registers API types with client-go schemes; their
 // init is not executed and their initialised globals are treated like dependency globals.
-var skipOwnInit = []string{ownModule + "/pkg/ipam/client/", ownModule + "/pkg/ipam/apis/"}
+var skipOwnInit = []string{ownModule + "/pkg/ipam/client/", ownModule + "/pkg/ipam/apis/", ownModule + "/pkg/ipam/cloudprovider/rpc/"}
 
 // initRuns reports whether the package initialiser of p is executed by the engine.
 func (e *Engine) initRuns(p *types.Package) bool {
@@ -486,7 +486,17 @@ func (e *Engine) runPath(h *Harness, solver *smt.Solver, prefix []Decision, opt 
 	}()
 	// package initialisation of the harness' package (own packages transitively; dependencies skipped)
 	if initFn := h.Pkg.Func("init"); initFn != nil {
-		call(p, nil, token.NoPos, initFn, nil)
+		func() {
+			defer func() {
+				if r := recover(); r != nil {
+					if tp, ok := r.(targetPanic); ok {
+						panic(abortPath{kind: "unmodelled", reason: "panic during package initialisation: " + tp.String() + " @ " + tp.pos})
+					}
+					panic(r)
+				}
+			}()
+			call(p, nil, token.NoPos, initFn, nil)
+		}()
 	}
 	call(p, nil, token.NoPos, h.Fn, nil)
 	if held := p.heldLocks(); len(held) > 0 {
